@@ -23,7 +23,9 @@ use deadpool::managed::{
 use deadpool::Runtime;
 use serde::{Deserialize, Serialize};
 
-pub const HANG_TIMEOUT: Duration = Duration::from_secs(10);
+/// a task that neither parks nor finishes within this time is blocked inside the code under test (every
+/// segment between two schedule points is a handful of instructions)
+pub const HANG_TIMEOUT: Duration = Duration::from_secs(4);
 
 #[derive(Clone, Debug, Deserialize, Serialize)]
 pub struct Cfg {
